@@ -181,10 +181,13 @@ impl ConnectionState {
                 *self = ConnectionState::ServerClosing(close);
 
                 for (_, mut slot) in inner.chan_slots.drain() {
-                    send(&slot.tx, Err(make_err()))?;
+                    // Tell the consumers before waking a caller blocked on this channel: once
+                    // that caller has its error it may drop its consumers, and a consumer
+                    // whose receiver is gone must not be written to.
                     for (_, tx) in slot.consumers.drain() {
                         send(&tx, ConsumerMessage::ServerClosedConnection(make_err()))?;
                     }
+                    send(&slot.tx, Err(make_err()))?;
                 }
             }
             // Server ack for client-initiated connection close.
@@ -236,10 +239,11 @@ impl ConnectionState {
                     code: close.reply_code,
                     message: close.reply_text.clone(),
                 };
-                send(&slot.tx, Err(make_err()))?;
+                // Consumers first, then the caller (see the connection close above).
                 for (_, tx) in slot.consumers.drain() {
                     send(&tx, ConsumerMessage::ServerClosedChannel(make_err()))?;
                 }
+                send(&slot.tx, Err(make_err()))?;
                 inner.push_method(n, AmqpChannel::CloseOk(ChannelCloseOk {}));
             }
             // Server ack for client-initiated channel close.
